@@ -56,7 +56,9 @@ def run_pipeline(chk, want, quick_cases=1500, full_cases=60000, nconc=(3, 8),
         for k in sorted(by):
             cases += by[k] if len(by[k]) <= per else rnd.sample(by[k], per)
     # (own generator: the replay of a case must rebuild exactly these concretisations)
-    concs = common.concs(nconc[1] if thorough else nconc[0], random.Random(chk.seed * 7919 + 13))
+    nbase = nconc[1] if thorough else nconc[0]
+    concs = common.concs(nbase, random.Random(chk.seed * 7919 + 13))
+    concs = concs + common.unit_twins(concs)
     skipped = 0
     ops = {}
     for i, case in enumerate(cases):
@@ -71,7 +73,7 @@ def run_pipeline(chk, want, quick_cases=1500, full_cases=60000, nconc=(3, 8),
             for prop, key, desc in res:
                 if prop == chk.pid:
                     chk.violation(key, desc, {"kind": "pipeline", "case": case, "conc": c.name, "conc_index": concs.index(c),
-                                              "seed": chk.seed, "nconc": len(concs), "assign_count": ak})
+                                              "seed": chk.seed, "nconc": nbase, "assign_count": ak})
         if i < 3:
             chk.sample({"root": {k: case["root"][k] for k in ("cls", "len", "hasT", "nchan", "align")},
                         "hist": case["hist"], "expected": {k: case["cur"][k] for k in ("len", "t0", "per", "k0", "stride", "nchan", "clo")}})
@@ -104,6 +106,7 @@ def replay(doc):
         print(ev["_desc"], "->", [f for _, f in rej] or "accepted")
         return 1 if rej else 0
     concs = common.concs(c["nconc"], random.Random(c["seed"] * 7919 + 13))
+    concs = concs + common.unit_twins(concs)
     common._ASSIGN_COUNT = c.get("assign_count", 0)
     res, skip = pr.replay(c["case"], concs[c["conc_index"]], want=(doc["property"],))
     res = [r for r in res if r[0] == doc["property"]]
